@@ -87,4 +87,9 @@ PROPS["C17"] = dict(driver="idxsim+consim", budget=dict(quick=60, thorough=1500)
     assumptions=["hash index: fixed documented capacity (<= 1200 entries generated) and no UpdateEntry (it panics 'not implemented'; not generated)",
                  "varchar keys stay below 200 bytes",
                  "concurrent part: tasks own disjoint key sets, so each completed operation has an exact expected answer without a linearizability search; range scans must return every never-touched entry exactly once, in order, and nothing that was never inserted"])
+PROPS["C19"] = dict(driver="consim", race=True, gomaxprocs=4, budget=dict(quick=90, thorough=1500), chunk=15, rule=CON_RULE + "; built with -race: the race detector is the oracle, a report is one unsynchronised access pair; in scope = the racing memory is page bytes/header, pool tables, lock tables and lock sets, log manager state, index nodes or catalog maps (decided by the innermost repository frames)",
+    technique="deterministic simulation under the seeded scheduler with the Go race detector as oracle: token hand-off by raw futex in //go:norace code adds no happens-before edges, so the detector sees exactly the engine's own synchronisation while schedules are chosen and replayable",
+    assumptions=["control flags (isCheckpointActive, isUpdaterActive, isExecutionActive, isEnableLogging) are out of the property's scope and only counted",
+                 "the race detector reasons by happens-before, so a racing pair is reported whenever both accesses are executed without a synchronisation path between them, not only when they overlap",
+                 "parked tasks are not killed in race builds (their deferred code would run unsynchronised); worker processes are recycled every 15 runs"])
 
